@@ -548,6 +548,106 @@ fn opt_case(cases: &[(usize, usize, usize)]) -> Option<String> {
 }
 fn opt_all_cases() -> Vec<(usize, usize, usize)> { let mut v = vec![]; for b in 0..OPT_BASES.len() { for sh in 0..OPT_SHAPES.len() { for at in 0..OPT_ATTRS.len() { v.push((b, sh, at)); } } } v }
 
+// ---------------------------------------------------------------- C15: doc text stays inside comments of the generated code
+/// doc strings over the property's alphabet; every one carries the marker INJ<k> right after the dangerous sequence, so that a lexer of the
+/// target language can tell whether the marker ended up outside a comment / docstring
+const DOC_TEXTS: [&str; 14] = [
+    "plain text INJ0", "first\nINJ1 second line", "ends a block */ INJ2 /* reopens", "opens /* INJ3 nested", "line // INJ4 slashes",
+    "quotes \"\"\" INJ5 \"\"\" triple", "single ''' INJ6 ''' triple", "back\\slash \\\" INJ7 \\", "trailing backslash INJ8 \\", "hash # INJ9 text",
+    "tick ` INJ10 ` tick", "cr\rINJ11 after carriage return", "*/\nINJ12\n/*", "\"\"\"\nINJ13 = 1\n\"\"\"",
+];
+/// how the doc text is written in the Rust source: 0 `///` lines, 1 `/** */`, 2 #[doc = ".."]
+fn doc_attr(text: &str, form: usize) -> Option<String> {
+    match form {
+        0 => Some(text.split('\n').map(|l| format!("/// {}\n", l.replace('\r', " "))).collect()),
+        1 => if text.contains("*/") || text.contains("/*") || text.contains('\r') { None } else { Some(format!("/** {} */\n", text)) },
+        _ => Some(format!("#[doc = {:?}]\n", text)),
+    }
+}
+/// the program: doc text `d` at every documentable position
+fn doc_program(d: usize, form: usize) -> Option<String> {
+    let a = doc_attr(DOC_TEXTS[d], form)?;
+    Some(format!("{a}#[typeshare]\npub struct S {{\n{a}pub f: u32,\n}}\n{a}#[typeshare]\npub enum U {{\n{a}A,\n{a}B,\n}}\n{a}#[typeshare]\n#[serde(tag = \"t\", content = \"c\")]\npub enum E {{\n{a}T(u32),\n{a}V {{\n{a}x: u32,\n}},\n{a}N,\n}}\n{a}#[typeshare]\npub type Al = Vec<u32>;\n", a = a))
+}
+/// byte ranges of the text that is NOT inside a comment or string of the target language
+fn code_regions(lang: &str, out: &str) -> Vec<(usize, usize)> {
+    let b = out.as_bytes();
+    let nested = matches!(lang, "kotlin" | "swift" | "scala");
+    let (mut i, mut start, mut v) = (0usize, 0usize, vec![]);
+    let n = b.len();
+    while i < n {
+        if lang == "python" {
+            if b[i] == b'#' { v.push((start, i)); while i < n && b[i] != b'\n' { i += 1; } start = i; continue; }
+            if b[i] == b'"' || b[i] == b'\'' {
+                v.push((start, i));
+                let q = b[i];
+                let triple = i + 2 < n && b[i + 1] == q && b[i + 2] == q;
+                i += if triple { 3 } else { 1 };
+                loop {
+                    if i >= n { break; }
+                    if b[i] == b'\\' { i += 2; continue; }
+                    if triple { if i + 2 < n && b[i] == q && b[i + 1] == q && b[i + 2] == q { i += 3; break; } }
+                    else if b[i] == q || b[i] == b'\n' { i += 1; break; }
+                    i += 1;
+                }
+                start = i.min(n); continue;
+            }
+            i += 1; continue;
+        }
+        if i + 1 < n && b[i] == b'/' && b[i + 1] == b'/' {
+            v.push((start, i));
+            // Swift ends a line comment at LF or CR
+            while i < n && b[i] != b'\n' && !(lang == "swift" && b[i] == b'\r') { i += 1; }
+            start = i; continue;
+        }
+        if i + 1 < n && b[i] == b'/' && b[i + 1] == b'*' {
+            v.push((start, i));
+            let mut depth = 1; i += 2;
+            while i < n && depth > 0 {
+                if nested && i + 1 < n && b[i] == b'/' && b[i + 1] == b'*' { depth += 1; i += 2; continue; }
+                if i + 1 < n && b[i] == b'*' && b[i + 1] == b'/' { depth -= 1; i += 2; continue; }
+                i += 1;
+            }
+            start = i.min(n); continue;
+        }
+        if b[i] == b'"' || (lang == "go" && b[i] == b'`') || ((lang == "typescript") && (b[i] == b'\'' || b[i] == b'`')) {
+            v.push((start, i));
+            let q = b[i]; i += 1;
+            while i < n { if b[i] == b'\\' && q != b'`' { i += 2; continue; } if b[i] == q || (b[i] == b'\n' && q != b'`') { i += 1; break; } i += 1; }
+            start = i.min(n); continue;
+        }
+        i += 1;
+    }
+    v.push((start, n));
+    v
+}
+/// -> Some(description) when a marker of the doc text lies outside every comment / docstring, or the doc text is not reproduced at all
+fn doc_case(d: usize, form: usize) -> Option<String> {
+    use std::collections::HashMap;
+    use typeshare_core::language::{Go, Kotlin, Language, Python, Scala, Swift, TypeScript};
+    let src = match doc_program(d, form) { Some(s) => s, None => return None };
+    let marker = format!("INJ{}", d);
+    for lang in TYPE_LANGS {
+        let data = match panic::catch_unwind(|| parse_named(&src, "f.rs")) { Ok(Some(x)) => x, Ok(None) => return Some("no parsed data".into()), Err(_) => return Some("the parser panicked".into()) };
+        if !data.errors.is_empty() { return Some(format!("parse errors: {:?}", data.errors.first().map(|e| e.error.to_string()))); }
+        let mut out: Vec<u8> = Vec::new();
+        let mut l: Box<dyn Language> = match lang { "typescript" => Box::new(TypeScript { no_version_header: true, ..Default::default() }), "kotlin" => Box::new(Kotlin { package: "p".into(), no_version_header: true, ..Default::default() }),
+            "swift" => Box::new(Swift { no_version_header: true, ..Default::default() }), "scala" => Box::new(Scala { package: "p.q".into(), no_version_header: true, ..Default::default() }),
+            "go" => Box::new(Go { package: "p".into(), no_version_header: true, ..Default::default() }), _ => Box::new(Python { no_version_header: true, ..Default::default() }) };
+        if let Err(e) = l.generate_types(&mut out, &HashMap::new(), data) { return Some(format!("{}: generation failed: {}", lang, e)); }
+        let out = String::from_utf8(out).unwrap();
+        if !out.contains(&marker) { return Some(format!("{}: the doc text is not reproduced in the output", lang)); }
+        for (a, b) in code_regions(lang, &out) {
+            if let Some(p) = out[a..b].find(&marker) {
+                let line_start = out[..a + p].rfind('\n').map_or(0, |x| x + 1);
+                let line_end = out[a + p..].find('\n').map_or(out.len(), |x| a + p + x);
+                return Some(format!("{}: doc text {:?} ({}) ends up OUTSIDE a comment: the line `{}` is code", lang, DOC_TEXTS[d], ["/// lines", "/** */ block", "#[doc = ..]"][form], out[line_start..line_end].trim()));
+            }
+        }
+    }
+    None
+}
+
 // ---------------------------------------------------------------- C13: cfg expressions vs the documented rule
 #[derive(Clone, Debug)]
 enum Cfg { Os(char), Feat, Word, Any(Vec<Cfg>), All(Vec<Cfg>), Not(Box<Cfg>) }
@@ -1031,6 +1131,18 @@ fn main() {
                 if opt_case(batch).is_some() { for (j, c) in batch.iter().enumerate() { if let Some(m) = opt_case(&[*c]) { report(b * 54 + j, m); } } if let Some(m) = opt_case(batch) { report(b * 54, m); } }
             }
             println!("no failing input among {} members (7 base types x 6 Option / smart-pointer shapes x 9 attribute forms incl. per-language type overrides) x struct field and struct-variant field x 6 languages", n);
+            std::process::exit(0);
+        }
+        Some("doc-search") | Some("doc-check") => {
+            let report = |d: usize, f: usize, m: String| { println!("WITNESS {{\"input\": {{\"doc\": {}, \"form\": {}}}, \"fails\": {:?}}}", d, f, m); std::process::exit(1); };
+            if a[1] == "doc-check" {
+                let (d, f): (usize, usize) = (a[2].parse().unwrap(), a[3].parse().unwrap());
+                if let Some(m) = doc_case(d, f) { report(d, f, m); }
+                println!("input passes"); std::process::exit(0);
+            }
+            let mut n = 0;
+            for d in 0..DOC_TEXTS.len() { for f in 0..3 { if doc_program(d, f).is_some() { n += 1; if let Some(m) = doc_case(d, f) { report(d, f, m); } } } }
+            println!("no failing input among {} (doc text, spelling) pairs x 12 documentable positions x 6 languages", n);
             std::process::exit(0);
         }
         Some("wire-search") | Some("wire-check") => {
